@@ -402,6 +402,16 @@ pub fn evaluate_ast(
                 source.clone(),
             )?;
 
+            // The right-hand side may itself have bound `ident` (`x = [x = 1, x]`):
+            // check again, so that the insert below can never replace a binding.
+            if bindings.contains_key(ident) {
+                return Err(RuntimeError::with_span(
+                    format!("{} is already defined, and cannot be reassigned", ident),
+                    expr.span,
+                    source.clone(),
+                ));
+            }
+
             // Set lambda name if assigning a lambda
             if let Value::Lambda(lambda_ptr) = val {
                 let mut borrowed_heap = heap.borrow_mut();
